@@ -57,7 +57,9 @@ abbrev MxRenderer := Renderer Float (PSnd Float) (PFx Float) Unit MxEnv
 def mxC : Comps Float (PSnd Float) (PFx Float) Unit := probeComps
 
 /-- a track handle whose track no longer exists on the audio side (the track was dropped while in a
-    removed parent's ring): what the handle still answers -/
+    removed parent's ring): what the handle still answers.  Since kira fix "parent track was removed with
+    a sub-track still waiting to be added" no live handle can lose its track (`C12_removal_rule`); the
+    bookkeeping is kept so that a regression replays as the old zombie behaviour. -/
 structure Ghost where
   id : Nat
   pubState : Nat
